@@ -385,20 +385,85 @@ def fcbo(model, R, key, S_):
 
 
 def wrappers(model, R):
-    for name in ('iterconcepts', 'get_concepts'):
+    am_ = model.module('algorithms')
+
+    def norm(e, f, depth=0):
+        """Canonical description of a wrapper expression: ('gen', name) | ('concepts', X) | ('list', X) | None."""
+        if depth > 4 or e is None:
+            return None
+        if isinstance(e, ast.Name) and e.id not in f.params:
+            # a local bound on several paths: every binding is looked at
+            vals = [st.value for st in stmts(f.body) if isinstance(st, ast.Assign) and len(st.targets) == 1 and name_is(st.targets[0], e.id)]
+            outs = [norm(v, f, depth + 1) for v in vals]
+            if outs and any(o is not None and o[0] == 'swapped' for o in outs):
+                return [o for o in outs if o is not None and o[0] == 'swapped'][0]
+            if outs and all(o is not None for o in outs):
+                return outs[0] if len(set(map(str, outs))) == 1 else ('either', tuple(outs))
+            return None
+        if (isinstance(e, ast.GeneratorExp) and len(e.generators) == 1 and not e.generators[0].ifs and isinstance(e.generators[0].target, ast.Tuple)
+                and len(e.generators[0].target.elts) == 2 and isinstance(e.elt, ast.Tuple) and len(e.elt.elts) == 2
+                and all(isinstance(x, ast.Name) for x in list(e.generators[0].target.elts) + list(e.elt.elts))):
+            # (a, b) for a, b in G  is G; (b, a) for a, b in G  is G with extent and intent exchanged
+            inner = norm(e.generators[0].iter, f, depth + 1)
+            t = [x.id for x in e.generators[0].target.elts]
+            el = [x.id for x in e.elt.elts]
+            if inner and inner[0] == 'gen':
+                if el == t:
+                    return inner
+                if el == t[::-1]:
+                    return ('swapped', inner)
+            return None
+        if isinstance(e, ast.Call) and isinstance(e.func, ast.Name) and e.func.id in ('fast_generate_from', 'fcbo_dual') and len(e.args) == 1 \
+                and name_is(e.args[0], f.params[0]) and not e.keywords:
+            return ('gen', e.func.id)
+        if isinstance(e, ast.Call) and name_is(e.func, 'map') and len(e.args) == 2 and chain(e.args[0]) == ['Concept', '_make']:
+            inner = norm(e.args[1], f, depth + 1)
+            return ('concepts', inner) if inner and inner[0] == 'gen' else None
+        if isinstance(e, (ast.GeneratorExp, ast.ListComp)) and len(e.generators) == 1 and not e.generators[0].ifs:
+            g = e.generators[0]
+            inner = norm(g.iter, f, depth + 1)
+            elt = e.elt
+            whole = isinstance(g.target, ast.Name) and isinstance(elt, ast.Call) and (
+                (chain(elt.func) == ['Concept', '_make'] and len(elt.args) == 1 and name_is(elt.args[0], g.target.id))
+                or (name_is(elt.func, 'Concept') and len(elt.args) == 1 and isinstance(elt.args[0], ast.Starred) and name_is(elt.args[0].value, g.target.id)))
+            pairwise = (isinstance(g.target, ast.Tuple) and len(g.target.elts) == 2 and isinstance(elt, ast.Call) and name_is(elt.func, 'Concept')
+                        and [src(a) for a in elt.args] == [src(t) for t in g.target.elts] and not elt.keywords)
+            if inner and inner[0] == 'gen' and (whole or pairwise):
+                return ('concepts', inner)
+            return None
+        if isinstance(e, ast.Call) and chain(e.func) == ['ConceptList', 'frompairs'] and len(e.args) == 1:
+            inner = norm(e.args[0], f, depth + 1)
+            if inner and inner[0] == 'swapped':
+                return inner
+            if inner and inner[0] == 'either' and all(o[0] == 'gen' for o in inner[1]):
+                return ('list', ('concepts', inner))
+            return ('list', ('concepts', inner)) if inner and inner[0] == 'gen' else None
+        if isinstance(e, ast.Call) and name_is(e.func, 'ConceptList') and len(e.args) == 1:
+            inner = norm(e.args[0], f, depth + 1)
+            return ('list', inner) if inner and inner[0] == 'concepts' else None
+        if isinstance(e, ast.Call) and isinstance(e.func, ast.Name) and e.func.id in ('iterconcepts',) and len(e.args) == 1 and name_is(e.args[0], f.params[0]):
+            g = am_.funcs.get(e.func.id)
+            if g is not None:
+                rr = [Env(g).expand(n.value) for n in walk(g.body) if isinstance(n, ast.Return)]
+                if len(rr) == 1:
+                    return norm(rr[0], g, depth + 1)
+        return None
+    for name, want in (('iterconcepts', ('concepts', ('gen', 'fast_generate_from'))), ('get_concepts', ('list', ('concepts', ('gen', 'fast_generate_from'))))):
         f = model.func(f'algorithms.{name}')
         env = Env(f)
         r = [env.expand(n.value) for n in walk(f.body) if isinstance(n, ast.Return)]
-        ok = False
-        if len(r) == 1 and isinstance(r[0], ast.Call):
-            c = r[0]
-            if name == 'iterconcepts':
-                ok = (name_is(c.func, 'map') and len(c.args) == 2 and chain(c.args[0]) == ['Concept', '_make']
-                      and src(c.args[1]) == f'fast_generate_from({f.params[0]})')
-            else:
-                ok = (chain(c.func) == ['ConceptList', 'frompairs'] and len(c.args) == 1 and src(c.args[0]) == f'fast_generate_from({f.params[0]})')
-        R.check(ok, 'WRAPPER', f, f.node, f'{name}: every generated pair, unfiltered, as Concept', 'Concept._make over fast_generate_from(context)',
-                src(r[0]) if r else '')
+        got = norm(r[0], f) if len(r) == 1 else None
+        slot = f'{name}: every generated pair, unfiltered, as Concept'
+        if got == want:
+            R.ok('WRAPPER', f, f.node, slot, src(r[0])[:120])
+        elif got is not None and got[0] == 'swapped':
+            R.bad('WRAPPER', f, f.node, slot, 'pairs kept as (extent, intent), the order both generators yield them in', f'the two components of {got[1][1]}(...) exchanged',
+                  extra={'consequence': 'every Concept of the list has its intent in the extent field and vice versa'})
+        elif got is not None:
+            # a recognised wrapper over another source (e.g. the dual generator): the documented one is the by-intents generator
+            R.bad('WRAPPER', f, f.node, slot, 'Concept._make over fast_generate_from(context)' + (' in a ConceptList' if name == 'get_concepts' else ''), str(got))
+        else:
+            R.unknown('WRAPPER', f, f.node, slot, 'wrapper not in a recognised form: ' + (src(r[0])[:100] if r else f'{len(r)} returns'))
     f = model.func('_common.ConceptList.frompairs')
     R.returns(f, f'cls(map(Concept._make, {f.params[1]}))', 'WRAPPER', 'ConceptList.frompairs keeps every pair')
     c = model.cls('_common.Concept')
